@@ -15,7 +15,7 @@ META = {
     "assumptions": ["random.sample(pop,k) is a uniform k-subset of pop (trusted primitive): the random rule is decided by "
                     "checking the population and k handed to it, plus what is done with the result"],
     "min_obs": {"all": {"frac_calls": 500, "random_calls": 300, "random_sample_law_checks": 200, "forced_subsets": 100,
-                        "run_rounds_balanced": 500, "random_runs": 50}},
+                        "run_rounds_balanced": 500, "random_runs": 50, "local_rounds_balanced": 1000}},
 }
 
 
@@ -190,6 +190,66 @@ def check_call(ctx, case):
             break
 
 
+def local_balance(ctx, c2, cfg, log, T):
+    """Per-round conservation decided on the *observed* profiles (input and output of each stored step), independent of
+    any reference trace: out = sum over continuing ballots of their weight (x (t-T)/t for ballots led by a quota-elected
+    candidate under the fractional rule), ballots without a surviving choice dropping out."""
+    israndom = cfg.get("transfer") == "random"
+    full = cfg["rule"] == "SequentialRCV"
+    for (obj, pin, prev, pout) in log:
+        if not hasattr(obj, "threshold"):
+            continue
+        tally = dict(prev.scores)
+        st_idx = prev.round_number + 1
+        if st_idx >= len(obj.election_states):
+            continue
+        s = obj.election_states[st_idx]
+        el = {c for g in s.elected for c in g}
+        elim = {c for g in s.eliminated for c in g}
+        gone = el | elim
+        byq = {c for c in el if tally.get(c, F(0)) >= T}
+        if el and not byq:
+            continue  # default election of the last candidates: everything left is consumed
+        w_in = sum((b.weight for b in pin.ballots), F(0))
+        w_out = sum((b.weight for b in pout.ballots), F(0))
+        ctx.count("local_rounds_balanced")
+        if w_out > w_in:
+            ctx.fail("a round increased the total ballot weight", c2, {"round": st_idx, "in": str(w_in), "out": str(w_out)})
+            return False
+        lo = hi = F(0)
+        for b in pin.ballots:
+            first = next(iter(b.ranking[0]))
+            survives = any(not (set(g) <= gone) for g in b.ranking)
+            if first in byq and not full:
+                t = tally[first]
+                share = b.weight * (t - T) / t if t else F(0)
+                if israndom:
+                    hi += b.weight if survives else 0
+                else:
+                    lo += share if survives else 0
+                    hi += share if survives else 0
+            else:
+                lo += b.weight if survives else 0
+                hi += b.weight if survives else 0
+        if israndom:
+            # whole ballots: at most the surplus of every winner can continue
+            cap = sum((tally[c] - T for c in byq), F(0)) + sum((b.weight for b in pin.ballots if next(iter(b.ranking[0])) not in byq), F(0))
+            if w_out > min(hi, cap):
+                ctx.fail("random transfer: more weight continues than the winners' surplus allows", c2,
+                         {"round": st_idx, "out": str(w_out), "cap": str(min(hi, cap))})
+                return False
+            if w_out < lo:
+                ctx.fail("random transfer: ballots not led by a winner lost weight", c2, {"round": st_idx})
+                return False
+        elif w_out != lo:
+            ctx.fail("round does not conserve votes: weight after the round differs from (continuing ballots at full weight + "
+                     "winners' ballots at (tally-threshold)/tally), dropping only ballots with no surviving choice", c2,
+                     {"round": st_idx, "weight_in": str(w_in), "weight_out": str(w_out), "expected_out": str(lo),
+                      "elected": sorted(map(str, el)), "eliminated": sorted(map(str, elim)), "T": str(T)})
+            return False
+    return True
+
+
 def check_run(ctx, case, max_runs):
     """run level: weight balance per round"""
     cfg, spec = case["cfg"], case["profile"]
@@ -201,17 +261,29 @@ def check_run(ctx, case, max_runs):
     T = ref.T
     israndom = cfg.get("transfer") == "random"
     script0 = case.get("script")
+    def go():
+        rules.STEP_LOG[0] = []
+        try:
+            o = rules.run(cfg, prof)[0]
+            o.steplog = rules.STEP_LOG[0]
+            return o
+        finally:
+            rules.STEP_LOG[0] = None
+
     if script0 is not None or israndom:
         r = rng.Rng("script", script=script0 or [], policy="seeded", seed=case.get("seed", 0),
                     only={"random.sample"} if israndom and script0 is None else None)
         with r:
-            out = rules.run(cfg, prof)[0]
+            out = go()
         runs = [(script0 or [], out, r)]
     else:
-        runs = rng.explore(lambda: rules.run(cfg, prof)[0], max_runs=max_runs, raw=True)
+        runs = rng.explore(go, max_runs=max_runs, raw=True)
     for script, out, r in runs:
         c2 = dict(case)
         c2["script"] = script
+        if out.ok and getattr(out, "steplog", None):
+            if not ctx.guard("local_balance", local_balance, ctx, c2, cfg, out.steplog, T):
+                continue
         if not out.ok:
             ctx.count("run_constructor_raised_skipped")
             continue
